@@ -434,6 +434,87 @@ var rR4 = RuleRef{Name: "R4", Doc: "allocation sizes derived from an integer par
 							return
 						}
 						switch x := v.(type) {
+						case *ssa.Extract:
+							// a result of a normalising helper (first, last, ok := l.span(start, end)): judged inside the helper,
+							// at the returns that can lead here (behind `if !ok { return }` the returns with ok == false cannot)
+							call, isCall := x.Tuple.(*ssa.Call)
+							cf := (*ssa.Function)(nil)
+							if isCall {
+								cf = call.Call.StaticCallee()
+							}
+							if cf == nil || !firstParty(cf) || cf.Blocks == nil {
+								bounded = false
+								return
+							}
+							okIdx := -1
+							if call.Referrers() != nil {
+								for _, r := range *call.Referrers() {
+									ex, isEx := r.(*ssa.Extract)
+									if !isEx || !isBoolType(ex.Type()) {
+										continue
+									}
+									for dd := ms.Block(); dd != nil && dd.Idom() != nil; dd = dd.Idom() {
+										id := dd.Idom()
+										if len(dd.Preds) != 1 || dd.Preds[0] != id {
+											continue
+										}
+										if cond, neg, okc := branchCond(id, dd); okc && cond == ssa.Value(ex) && !neg {
+											okIdx = ex.Index
+										}
+									}
+								}
+							}
+							cp := c.newProver(cf)
+							var csizes []ssa.Value
+							for _, bb := range cf.Blocks {
+								for _, ii := range bb.Instrs {
+									if y, isU := ii.(*ssa.UnOp); isU && y.Op == token.MUL {
+										if fa, isFA := y.X.(*ssa.FieldAddr); isFA && fieldName(fa) == "Len" {
+											csizes = append(csizes, y)
+										}
+									}
+									if y, isC := ii.(*ssa.Call); isC {
+										if bi, isB := y.Call.Value.(*ssa.Builtin); isB && bi.Name() == "len" {
+											csizes = append(csizes, y)
+										}
+									}
+								}
+							}
+							// a length handed to the helper (clampRange(start, end, l.Len)) is a size inside it
+							for pi, prm := range cf.Params {
+								if pi < len(call.Call.Args) && isIntType(prm.Type()) {
+									if a := call.Call.Args[pi]; isSize(a) || proveUpper(a) {
+										csizes = append(csizes, prm)
+									}
+								}
+							}
+							for _, bb := range cf.Blocks {
+								ret, isRet := bb.Instrs[len(bb.Instrs)-1].(*ssa.Return)
+								if !isRet || x.Index >= len(ret.Results) {
+									continue
+								}
+								if okIdx >= 0 && okIdx < len(ret.Results) {
+									if k, isK := ret.Results[okIdx].(*ssa.Const); isK && k.Value != nil && k.Value.ExactString() == "false" {
+										continue
+									}
+								}
+								rv := ret.Results[x.Index]
+								if _, isK := rv.(*ssa.Const); isK {
+									continue
+								}
+								good := false
+								if upper {
+									good = cp.ProveLE(cp.lin(rv), lt{"0", 0}, 1<<31, ret)
+									for _, sv := range csizes {
+										good = good || cp.ProveLE(cp.lin(rv), cp.lin(sv), 0, ret)
+									}
+								} else {
+									good = cp.ProveLE(lt{"0", 0}, cp.lin(rv), 1<<31, ret)
+								}
+								if !good {
+									bounded = false
+								}
+							}
 						case *ssa.BinOp:
 							switch x.Op {
 							case token.ADD:
